@@ -1,6 +1,6 @@
 import NucsProofs.Basic
 /-!
-  lexicographic_leq: `x ≤_lex y`.  Sound, GroundOk, EntailOk, TrigOk, ContractMono, Safe.
+  lexicographic_leq: `x ≤_lex y`.  Sound, GroundOk, EntailOk, TrigOk, ContractMono, Safe, Exact.
 -/
 namespace Nucs
 namespace Lex
@@ -625,5 +625,600 @@ theorem Lex.trigOk_of_minMax (a : Alg) (hs : Sound a) (hm : ∀ ps n k, maskAlg 
   exact ⟨st, hrun, hst⟩
 
 theorem trigOk_lexLeq : TrigOk .lexLeq := Lex.trigOk_of_minMax .lexLeq sound_lexLeq (fun _ _ _ => rfl)
+
+namespace Lex
+
+/-! ### bounds consistency (`Exact`): tuples given by functions -/
+
+def mk (g : Nat → Int) (n : Nat) : List Int := (List.range n).map g
+
+theorem length_mk (g : Nat → Int) (n : Nat) : (mk g n).length = n := by simp [mk]
+
+theorem getI_mk (g : Nat → Int) {n k : Nat} (hk : k < n) : getI (mk g n) k = g k := by
+  simp [mk, getI, List.getD, hk]
+
+/-- `g` picks a value in every domain of `X` -/
+def InB (g : Nat → Int) (X : Box) : Prop := ∀ k, k < X.length → (getDom X k).1 ≤ g k ∧ g k ≤ (getDom X k).2
+
+theorem inBox_mk {g : Nat → Int} {X : Box} {n : Nat} (hX : X.length = n) (h : InB g X) : inBox (mk g n) X := by
+  apply inBox_of_get (by rw [length_mk, hX])
+  intro k hk
+  rw [getI_mk g (by omega)]
+  exact h k hk
+
+theorem InB.mono {g : Nat → Int} {X' X : Box} (h : InB g X') (hle : Box.le X' X) : InB g X := by
+  intro k hk
+  have := Box.le_get k hle hk
+  have := h k (by rw [Box.le_length hle]; exact hk)
+  omega
+
+/-- `gx ≤_lex gy` on positions `i .. n-1` -/
+def lexF (gx gy : Nat → Int) (n i : Nat) : Prop := lexLe ((mk gx n).drop i) ((mk gy n).drop i)
+
+theorem lexF_end (gx gy : Nat → Int) (n : Nat) : lexF gx gy n n :=
+  lexLe_drop_ge (by rw [length_mk]; exact Nat.le_refl _)
+
+theorem lexF_step (gx gy : Nat → Int) {n i : Nat} (hi : i < n) :
+    lexF gx gy n i ↔ gx i < gy i ∨ (gx i = gy i ∧ lexF gx gy n (i + 1)) := by
+  unfold lexF
+  rw [lexLe_drop_iff (by rw [length_mk]; exact hi) (by rw [length_mk]; exact hi), getI_mk gx hi, getI_mk gy hi]
+
+theorem lexF_congr {gx gy gx' gy' : Nat → Int} {n : Nat} :
+    ∀ (d i : Nat), i + d = n → (∀ k, i ≤ k → k < n → gx k = gx' k ∧ gy k = gy' k) →
+      lexF gx gy n i → lexF gx' gy' n i
+  | 0, i, hd, _, _ => by
+    have : i = n := by omega
+    subst this; exact lexF_end _ _ _
+  | d + 1, i, hd, h, hl => by
+    have hi : i < n := by omega
+    rw [lexF_step _ _ hi] at hl ⊢
+    obtain ⟨e1, e2⟩ := h i (Nat.le_refl _) hi
+    rw [← e1, ← e2]
+    rcases hl with hl | ⟨he, hl⟩
+    · exact Or.inl hl
+    · exact Or.inr ⟨he, lexF_congr d (i + 1) (by omega) (fun k hk hkn => h k (by omega) hkn) hl⟩
+
+theorem lexF_of_allLe {x y : Box} {n i : Nat} (hx : x.length = n) (hy : y.length = n) (h : AllLe x y i)
+    {gx gy : Nat → Int} (h1 : InB gx x) (h2 : InB gy y) : lexF gx gy n i :=
+  h _ _ (inBox_mk hx h1) (inBox_mk hy h2)
+
+/-- some pair of the box is `≤_lex` from position `i` on -/
+def CanLe (x y : Box) (n i : Nat) : Prop := ∃ gx gy, InB gx x ∧ InB gy y ∧ lexF gx gy n i
+
+/-- the lower bounds -/
+def lo (X : Box) (k : Nat) : Int := (getDom X k).1
+
+theorem inB_lo {X : Box} (h : X.Nonempty) : InB (lo X) X :=
+  fun k hk => ⟨Int.le_refl _, Box.nonempty_get h k hk⟩
+
+theorem canLe_end {x y : Box} {n : Nat} (hnx : x.Nonempty) (hny : y.Nonempty) : CanLe x y n n :=
+  ⟨lo x, lo y, inB_lo hnx, inB_lo hny, lexF_end _ _ _⟩
+
+/-- override one coordinate -/
+def upd (g : Nat → Int) (i : Nat) (v : Int) : Nat → Int := fun k => if k = i then v else g k
+
+theorem inB_upd {g : Nat → Int} {X : Box} {i : Nat} {v : Int} (h : InB g X)
+    (hv : (getDom X i).1 ≤ v ∧ v ≤ (getDom X i).2) : InB (upd g i v) X := by
+  intro k hk
+  unfold upd
+  split
+  · rename_i e; rw [e]; exact hv
+  · exact h k hk
+
+theorem canLe_lt {x y : Box} {n i : Nat} (hx : x.length = n) (hy : y.length = n) (hi : i < n)
+    (hnx : x.Nonempty) (hny : y.Nonempty) (h : (getDom x i).1 < (getDom y i).2) : CanLe x y n i := by
+  have hxi := Box.nonempty_get hnx i (by omega)
+  have hyi := Box.nonempty_get hny i (by omega)
+  refine ⟨upd (lo x) i (getDom x i).1, upd (lo y) i (getDom y i).2,
+    inB_upd (inB_lo hnx) ⟨Int.le_refl _, hxi⟩, inB_upd (inB_lo hny) ⟨hyi, Int.le_refl _⟩, ?_⟩
+  rw [lexF_step _ _ hi]
+  left; simp [upd]; exact h
+
+theorem canLe_step {x y : Box} {n i : Nat} (hx : x.length = n) (hy : y.length = n) (hi : i < n)
+    (hnx : x.Nonempty) (hny : y.Nonempty) (h : (getDom x i).1 = (getDom y i).2)
+    (hc : CanLe x y n (i + 1)) : CanLe x y n i := by
+  have hxi := Box.nonempty_get hnx i (by omega)
+  have hyi := Box.nonempty_get hny i (by omega)
+  obtain ⟨gx, gy, h1, h2, hl⟩ := hc
+  refine ⟨upd gx i (getDom x i).1, upd gy i (getDom y i).2,
+    inB_upd h1 ⟨Int.le_refl _, hxi⟩, inB_upd h2 ⟨hyi, Int.le_refl _⟩, ?_⟩
+  rw [lexF_step _ _ hi]
+  right
+  refine ⟨by simp [upd]; exact h, ?_⟩
+  exact lexF_congr (n - (i + 1)) (i + 1) (by omega) (fun k hk _ => by simp [upd]; omega) hl
+
+theorem state4_specX (x y : Box) (n q : Nat) (hx : x.length = n) (hy : y.length = n)
+    (hnx : x.Nonempty) (hny : y.Nonempty) :
+    ∀ fuel i, i ≤ n → n + 1 ≤ fuel + i →
+      (lexState4 x y n q fuel i = (.cons, x, y) ∧ CanLe x y n i) ∨
+      (lexState4 x y n q fuel i = lexEnforce x y q true ∧ NoneLe x y i)
+  | 0, _, _, _ => by omega
+  | fuel + 1, i, hi, hf => by
+    simp only [lexState4]
+    split
+    · rename_i h
+      rcases state4_specX x y n q hx hy hnx hny fuel (i + 1) (by omega) (by omega) with ⟨h', hc⟩ | ⟨h', hn⟩
+      · exact Or.inl ⟨h', canLe_step hx hy h.1 hnx hny h.2 hc⟩
+      · exact Or.inr ⟨h', noneLe_step hx hy h.1 (by omega) hn⟩
+    · rename_i h0
+      split
+      · rename_i h; exact Or.inr ⟨rfl, noneLe_gt hx hy h.1 h.2⟩
+      · rename_i h1
+        refine Or.inl ⟨rfl, ?_⟩
+        by_cases e : i = n
+        · subst e; exact canLe_end hnx hny
+        · exact canLe_lt hx hy (by omega) hnx hny (by omega)
+
+theorem state2_specX (x y : Box) (n q : Nat) (hx : x.length = n) (hy : y.length = n)
+    (hnx : x.Nonempty) (hny : y.Nonempty) :
+    ∀ fuel i, i ≤ n → n + 1 ≤ fuel + i →
+      (lexState2 x y n q fuel i = (.cons, x, y) ∧ CanLe x y n i) ∨
+      (lexState2 x y n q fuel i = lexEnforce x y q false ∧ AllLe x y i) ∨
+      (lexState2 x y n q fuel i = lexEnforce x y q true ∧ NoneLe x y i)
+  | 0, _, _, _ => by omega
+  | fuel + 1, i, hi, hf => by
+    simp only [lexState2]
+    split
+    · rename_i h
+      rcases state2_specX x y n q hx hy hnx hny fuel (i + 1) (by omega) (by omega) with ⟨h', hc⟩ | ⟨h', hn⟩ | ⟨h', hn⟩
+      · exact Or.inl ⟨h', canLe_step hx hy h.1 hnx hny (by omega) hc⟩
+      · exact Or.inr (Or.inl ⟨h', allLe_step hx hy h.1 (by omega) hn⟩)
+      · exact Or.inr (Or.inr ⟨h', noneLe_step hx hy h.1 (by omega) hn⟩)
+    · rename_i h0
+      split
+      · rename_i h
+        refine Or.inr (Or.inl ⟨rfl, ?_⟩)
+        rcases h with h | h
+        · subst h; exact allLe_end hx
+        · by_cases e : i = n
+          · subst e; exact allLe_end hx
+          · exact allLe_lt hx hy (by omega) h
+      · rename_i h1
+        have hin : i < n := by omega
+        have hxi := Box.nonempty_get hnx i (by omega)
+        have hyi := Box.nonempty_get hny i (by omega)
+        split
+        · rename_i h; exact Or.inr (Or.inr ⟨rfl, noneLe_gt hx hy hin h⟩)
+        · rename_i h2
+          split
+          · rename_i h
+            rcases state3_spec x y n q hx hy (n + 1) (i + 1) (by omega) with h' | ⟨h', hn⟩
+            · exact Or.inl ⟨h', canLe_lt hx hy hin hnx hny h.2⟩
+            · exact Or.inr (Or.inl ⟨h', allLe_step hx hy hin (by omega) hn⟩)
+          · rename_i h3
+            split
+            · rename_i h
+              rcases state4_specX x y n q hx hy hnx hny (n + 1) (i + 1) (by omega) (by omega) with ⟨h', hc⟩ | ⟨h', hn⟩
+              · exact Or.inl ⟨h', canLe_step hx hy hin hnx hny h.1 hc⟩
+              · exact Or.inr (Or.inr ⟨h', noneLe_step hx hy hin (by omega) hn⟩)
+            · rename_i h4
+              exact Or.inl ⟨rfl, canLe_lt hx hy hin hnx hny (by omega)⟩
+
+/-- every bound of the box `(X, Y)` is attained by a pair that is `≤_lex` from position `i` on -/
+def Supp (X Y : Box) (n i : Nat) : Prop :=
+  (∀ k, k < n → ∀ v, (v = (getDom X k).1 ∨ v = (getDom X k).2) →
+    ∃ gx gy, InB gx X ∧ InB gy Y ∧ lexF gx gy n i ∧ gx k = v) ∧
+  (∀ k, k < n → ∀ v, (v = (getDom Y k).1 ∨ v = (getDom Y k).2) →
+    ∃ gx gy, InB gx X ∧ InB gy Y ∧ lexF gx gy n i ∧ gy k = v)
+
+theorem bound_mem {X : Box} (hn : X.Nonempty) {k : Nat} (hk : k < X.length) {v : Int}
+    (hv : v = (getDom X k).1 ∨ v = (getDom X k).2) : (getDom X k).1 ≤ v ∧ v ≤ (getDom X k).2 := by
+  have := Box.nonempty_get hn k hk
+  rcases hv with hv | hv <;> omega
+
+theorem upd_same (g : Nat → Int) (i : Nat) (v : Int) : upd g i v i = v := by simp [upd]
+theorem upd_other (g : Nat → Int) {i k : Nat} (v : Int) (h : k ≠ i) : upd g i v k = g k := by simp [upd, h]
+
+theorem supp_of_allLe {X Y : Box} {n i : Nat} (hX : X.length = n) (hY : Y.length = n)
+    (hnX : X.Nonempty) (hnY : Y.Nonempty) (h : AllLe X Y i) : Supp X Y n i := by
+  constructor
+  · intro k hk v hv
+    have h1 := inB_upd (inB_lo hnX) (bound_mem hnX (by omega) hv)
+    exact ⟨_, _, h1, inB_lo hnY, lexF_of_allLe hX hY h h1 (inB_lo hnY), upd_same _ _ _⟩
+  · intro k hk v hv
+    have h2 := inB_upd (inB_lo hnY) (bound_mem hnY (by omega) hv)
+    exact ⟨_, _, inB_lo hnX, h2, lexF_of_allLe hX hY h (inB_lo hnX) h2, upd_same _ _ _⟩
+
+/-- the situation after the final pruning at `q` -/
+theorem supp_at {X Y : Box} {n q : Nat} (hX : X.length = n) (hY : Y.length = n)
+    (hnX : X.Nonempty) (hnY : Y.Nonempty) (hq : q < n)
+    (hlt : (getDom X q).1 < (getDom Y q).2)
+    (hs1 : (getDom X q).2 ≤ (getDom Y q).2) (hs2 : (getDom X q).1 ≤ (getDom Y q).1)
+    (hc : ((getDom X q).2 < (getDom Y q).2 ∧ (getDom X q).1 < (getDom Y q).1) ∨ CanLe X Y n (q + 1)) :
+    Supp X Y n q := by
+  have hxq := Box.nonempty_get hnX q (by omega)
+  have hyq := Box.nonempty_get hnY q (by omega)
+  -- strict at `q`
+  have strict : ∀ gx gy : Nat → Int, gx q < gy q → lexF gx gy n q :=
+    fun gx gy h => (lexF_step gx gy hq).mpr (Or.inl h)
+  -- equal at `q`, with a witness for the suffix
+  have equal : ∀ v, (getDom X q).1 ≤ v ∧ v ≤ (getDom X q).2 → (getDom Y q).1 ≤ v ∧ v ≤ (getDom Y q).2 →
+      CanLe X Y n (q + 1) → ∃ gx gy, InB gx X ∧ InB gy Y ∧ lexF gx gy n q ∧ gx q = v ∧ gy q = v := by
+    intro v h1 h2 ⟨gx, gy, g1, g2, gl⟩
+    refine ⟨upd gx q v, upd gy q v, inB_upd g1 h1, inB_upd g2 h2, ?_, upd_same _ _ _, upd_same _ _ _⟩
+    rw [lexF_step _ _ hq]
+    right
+    refine ⟨by rw [upd_same, upd_same], ?_⟩
+    exact lexF_congr (n - (q + 1)) (q + 1) (by omega)
+      (fun k hk _ => by rw [upd_other _ _ (by omega), upd_other _ _ (by omega)]; exact ⟨rfl, rfl⟩) gl
+  have hyd : InB (upd (lo Y) q (getDom Y q).2) Y := inB_upd (inB_lo hnY) ⟨hyq, Int.le_refl _⟩
+  constructor
+  · intro k hk v hv
+    have hvm := bound_mem hnX (by omega : k < X.length) hv
+    by_cases hkq : k = q
+    · subst hkq
+      by_cases hvd : v < (getDom Y k).2
+      · refine ⟨upd (lo X) k v, _, inB_upd (inB_lo hnX) hvm, hyd, strict _ _ ?_, upd_same _ _ _⟩
+        rw [upd_same, upd_same]; exact hvd
+      · have hcl : CanLe X Y n (k + 1) := by
+          rcases hc with hc | hc
+          · exfalso; rcases hv with hv | hv <;> omega
+          · exact hc
+        obtain ⟨gx, gy, g1, g2, gl, e1, _⟩ := equal v hvm (by omega) hcl
+        exact ⟨gx, gy, g1, g2, gl, e1⟩
+    · refine ⟨upd (lo X) k v, _, inB_upd (inB_lo hnX) hvm, hyd, strict _ _ ?_, upd_same _ _ _⟩
+      rw [upd_other _ _ (fun h => hkq h.symm), upd_same]; exact hlt
+  · intro k hk v hv
+    have hvm := bound_mem hnY (by omega : k < Y.length) hv
+    by_cases hkq : k = q
+    · subst hkq
+      by_cases hvd : (getDom X k).1 < v
+      · refine ⟨lo X, upd (lo Y) k v, inB_lo hnX, inB_upd (inB_lo hnY) hvm, strict _ _ ?_, upd_same _ _ _⟩
+        rw [upd_same]; exact hvd
+      · have hcl : CanLe X Y n (k + 1) := by
+          rcases hc with hc | hc
+          · exfalso; rcases hv with hv | hv <;> omega
+          · exact hc
+        obtain ⟨gx, gy, g1, g2, gl, _, e2⟩ := equal v (by omega) hvm hcl
+        exact ⟨gx, gy, g1, g2, gl, e2⟩
+    · refine ⟨lo X, upd (upd (lo Y) k v) q (getDom Y q).2, inB_lo hnX,
+        inB_upd (inB_upd (inB_lo hnY) hvm) ⟨hyq, Int.le_refl _⟩, strict _ _ ?_, ?_⟩
+      · rw [upd_same]; exact hlt
+      · rw [upd_other _ _ hkq, upd_same]
+
+theorem lexEnforce_get (x y : Box) (q : Nat) (s : Bool) (hqx : q < x.length) (hqy : q < y.length)
+    (h : (lexEnforce x y q s).1 ≠ .inc) :
+    getDom (lexEnforce x y q s).2.1 q = ((getDom x q).1, min (getDom x q).2 ((getDom y q).2 - kOf s)) ∧
+    getDom (lexEnforce x y q s).2.2 q = (max (getDom y q).1 ((getDom x q).1 + kOf s), (getDom y q).2) := by
+  revert h
+  cases s <;> simp only [lexEnforce, kOf, ↓reduceIte, Bool.false_eq_true] <;>
+  · split
+    · intro h; simp at h
+    · split
+      · intro h; simp at h
+      · intro _
+        simp only [getDom_set, hqx, hqy, and_self, ↓reduceIte]
+
+theorem handover_supp {x' y' : Box} {n q : Nat} {r : Status × Box × Box}
+    (hx' : x'.length = n) (hy' : y'.length = n) (nx : x'.Nonempty) (ny : y'.Nonempty) (hq : q < n)
+    (hlt : (getDom x' q).1 < (getDom y' q).2)
+    (hs1 : (getDom x' q).2 ≤ (getDom y' q).2) (hs2 : (getDom x' q).1 ≤ (getDom y' q).1)
+    (hr : lexState2 x' y' n q (n + 1) (q + 1) = r) (hst : r.1 ≠ .inc) : Supp r.2.1 r.2.2 n q := by
+  rcases state2_specX x' y' n q hx' hy' nx ny (n + 1) (q + 1) (by omega) (by omega) with ⟨e, hcl⟩ | ⟨e, hal⟩ | ⟨e, hno⟩
+  · rw [hr] at e; subst e
+    exact supp_at hx' hy' nx ny hq hlt hs1 hs2 (Or.inr hcl)
+  · rw [hr] at e; subst e
+    obtain ⟨l1, l2, n1, n2, _⟩ := (lexEnforce_sound x' y' q false (by omega) (by omega) nx ny).ok hst
+    obtain ⟨g1, g2⟩ := lexEnforce_get x' y' q false (by omega) (by omega) hst
+    have hX : (lexEnforce x' y' q false).2.1.length = n := by rw [Box.le_length l1, hx']
+    have hY : (lexEnforce x' y' q false).2.2.length = n := by rw [Box.le_length l2, hy']
+    refine supp_at hX hY n1 n2 hq ?_ ?_ ?_ (Or.inr ?_)
+    · rw [g1, g2]; exact hlt
+    · rw [g1, g2]; simp [kOf]; omega
+    · rw [g1, g2]; simp [kOf]; omega
+    · exact ⟨_, _, inB_lo n1, inB_lo n2,
+        lexF_of_allLe hx' hy' hal ((inB_lo n1).mono l1) ((inB_lo n2).mono l2)⟩
+  · rw [hr] at e; subst e
+    obtain ⟨l1, l2, n1, n2, _⟩ := (lexEnforce_sound x' y' q true (by omega) (by omega) nx ny).ok hst
+    obtain ⟨g1, g2⟩ := lexEnforce_get x' y' q true (by omega) (by omega) hst
+    have hX : (lexEnforce x' y' q true).2.1.length = n := by rw [Box.le_length l1, hx']
+    have hY : (lexEnforce x' y' q true).2.2.length = n := by rw [Box.le_length l2, hy']
+    refine supp_at hX hY n1 n2 hq ?_ ?_ ?_ (Or.inl ?_)
+    · rw [g1, g2]; exact hlt
+    · rw [g1, g2]; simp [kOf]; omega
+    · rw [g1, g2]; simp [kOf]; omega
+    · rw [g1, g2]; simp [kOf]; omega
+
+/-- the box pruned by state 1 at `i` -/
+theorem tighten_get {x y : Box} {n i : Nat} (hx : x.length = n) (hy : y.length = n) (hi : i < n) :
+    getDom (x.set i ((getDom x i).1, min (getDom x i).2 (getDom y i).2)) i =
+      ((getDom x i).1, min (getDom x i).2 (getDom y i).2) ∧
+    getDom (y.set i (max (getDom y i).1 (getDom x i).1, (getDom y i).2)) i =
+      (max (getDom y i).1 (getDom x i).1, (getDom y i).2) := by
+  rw [getDom_set, getDom_set, if_pos ⟨rfl, by omega⟩, if_pos ⟨rfl, by omega⟩]
+  exact ⟨rfl, rfl⟩
+
+theorem state1_supp (n : Nat) : ∀ (fuel i : Nat) (x y : Box) (r : Status × Box × Box),
+    x.length = n → y.length = n → x.Nonempty → y.Nonempty → i ≤ n → n + 1 ≤ fuel + i →
+    lexState1 n fuel i x y = r → r.1 ≠ .inc → Supp r.2.1 r.2.2 n i
+  | 0, i, x, y, r, hx, hy, hnx, hny, hi, hf, hr, hst => by omega
+  | fuel + 1, i, x, y, r, hx, hy, hnx, hny, hi, hf, hr, hst => by
+    have hspec := state1_spec n (fuel + 1) i x y r hx hy hnx hny hi hr
+    simp only [lexState1] at hr
+    split at hr
+    · rename_i h
+      split at hr
+      · subst hr; simp at hst
+      · rename_i c1
+        split at hr
+        · subst hr; simp at hst
+        · rename_i c2
+          obtain ⟨lx, ly, nx, ny, keep⟩ := tighten_spec hx hy h.1 hnx hny c1 c2
+          obtain ⟨ih1, _, _⟩ := state1_spec n fuel (i + 1) _ _ r (by simpa using hx) (by simpa using hy)
+            nx ny (by omega) hr
+          obtain ⟨l1, l2, _⟩ := ih1.ok hst
+          have ih := state1_supp n fuel (i + 1) _ _ r (by simpa using hx) (by simpa using hy) nx ny
+            (by omega) (by omega) hr hst
+          obtain ⟨t1, t2⟩ := tighten_get hx hy h.1
+          have lift : ∀ gx gy : Nat → Int, InB gx r.2.1 → InB gy r.2.2 → lexF gx gy n (i + 1) → lexF gx gy n i := by
+            intro gx gy g1 g2 gl
+            have a := (g1.mono l1) i (by simp; omega)
+            have b := (g2.mono l2) i (by simp; omega)
+            rw [t1] at a; rw [t2] at b
+            rw [lexF_step _ _ h.1]
+            right
+            refine ⟨?_, gl⟩
+            simp only [] at a b
+            omega
+          constructor
+          · intro k hk v hv
+            obtain ⟨gx, gy, g1, g2, gl, e⟩ := ih.1 k hk v hv
+            exact ⟨gx, gy, g1, g2, lift gx gy g1 g2 gl, e⟩
+          · intro k hk v hv
+            obtain ⟨gx, gy, g1, g2, gl, e⟩ := ih.2 k hk v hv
+            exact ⟨gx, gy, g1, g2, lift gx gy g1 g2 gl, e⟩
+    · rename_i h0
+      split at hr
+      · rename_i h; subst hr
+        apply supp_of_allLe hx hy hnx hny
+        rcases h with h | h
+        · subst h; exact allLe_end hx
+        · by_cases e : i = n
+          · subst e; exact allLe_end hx
+          · exact allLe_lt hx hy (by omega) h
+      · rename_i h1
+        have hin : i < n := by omega
+        split at hr
+        · subst hr; simp at hst
+        · rename_i c1
+          split at hr
+          · subst hr; simp at hst
+          · rename_i c2
+            obtain ⟨lx, ly, nx, ny, keep⟩ := tighten_spec hx hy hin hnx hny c1 c2
+            obtain ⟨t1, t2⟩ := tighten_get hx hy hin
+            have hxi := Box.nonempty_get hnx i (by omega)
+            have hyi := Box.nonempty_get hny i (by omega)
+            refine handover_supp (by simpa using hx) (by simpa using hy) nx ny hin ?_ ?_ ?_ hr hst
+            · rw [t1, t2]; simp only []; omega
+            · rw [t1, t2]; simp only []; omega
+            · rw [t1, t2]; simp only []; omega
+
+/-! ### a second call changes nothing -/
+
+theorem set_self {X : Box} {i : Nat} {d : Dom} (h : getDom X i = d) : X.set i d = X := by
+  apply Box.ext_get (by simp)
+  intro k _
+  rw [getDom_set]
+  split
+  · rename_i hc; rw [← hc.1]; exact h.symm
+  · rfl
+
+theorem enforce_idem {X Y : Box} {q : Nat} {s : Bool} (hnX : X.Nonempty) (hnY : Y.Nonempty)
+    (hqx : q < X.length) (hqy : q < Y.length)
+    (h1 : (getDom X q).2 ≤ (getDom Y q).2 - kOf s) (h2 : (getDom X q).1 + kOf s ≤ (getDom Y q).1) :
+    ∃ st, lexEnforce X Y q s = (st, X, Y) ∧ st ≠ .inc := by
+  have hxq := Box.nonempty_get hnX q hqx
+  have hyq := Box.nonempty_get hnY q hqy
+  have e1 : ((getDom X q).1, min (getDom X q).2 ((getDom Y q).2 - kOf s)) = getDom X q := by
+    apply Prod.ext <;> simp only [] <;> omega
+  have e2 : (max (getDom Y q).1 ((getDom X q).1 + kOf s), (getDom Y q).2) = getDom Y q := by
+    apply Prod.ext <;> simp only [] <;> omega
+  have hk : (if s = true then (1 : Int) else 0) = kOf s := rfl
+  simp only [lexEnforce, hk, e1, e2]
+  rw [if_neg (by omega), if_neg (by omega), set_self rfl, set_self rfl]
+  refine ⟨_, rfl, ?_⟩
+  split <;> split <;> simp
+
+theorem not_allLe_noneLe {X Y : Box} {n i : Nat} (hX : X.length = n) (hY : Y.length = n)
+    (hnX : X.Nonempty) (hnY : Y.Nonempty) (h1 : AllLe X Y i) (h2 : NoneLe X Y i) : False :=
+  h2 _ _ (inBox_mk hX (inB_lo hnX)) (inBox_mk hY (inB_lo hnY))
+    (h1 _ _ (inBox_mk hX (inB_lo hnX)) (inBox_mk hY (inB_lo hnY)))
+
+theorem not_canLe_noneLe {X Y : Box} {n i : Nat} (hX : X.length = n) (hY : Y.length = n)
+    (h1 : CanLe X Y n i) (h2 : NoneLe X Y i) : False := by
+  obtain ⟨gx, gy, g1, g2, gl⟩ := h1
+  exact h2 _ _ (inBox_mk hX g1) (inBox_mk hY g2) gl
+
+/-- the second call, from the position `i = q` where the first one handed over -/
+theorem rerun_handover {X Y : Box} {n i : Nat} (fuel : Nat) (hX : X.length = n) (hY : Y.length = n)
+    (hnX : X.Nonempty) (hnY : Y.Nonempty) (hin : i < n)
+    (hlt : (getDom X i).1 < (getDom Y i).2)
+    (hs1 : (getDom X i).2 ≤ (getDom Y i).2) (hs2 : (getDom X i).1 ≤ (getDom Y i).1)
+    (hk : CanLe X Y n (i + 1) ∨
+      (NoneLe X Y (i + 1) ∧ (getDom X i).2 < (getDom Y i).2 ∧ (getDom X i).1 < (getDom Y i).1)) :
+    ∃ st', lexState1 n (fuel + 1) i X Y = (st', X, Y) ∧ st' ≠ .inc := by
+  have hxi := Box.nonempty_get hnX i (by omega)
+  have hyi := Box.nonempty_get hnY i (by omega)
+  simp only [lexState1]
+  rw [if_neg (by omega)]
+  split
+  · exact ⟨_, rfl, by simp⟩
+  · rename_i hne
+    have e1 : ((getDom X i).1, min (getDom X i).2 (getDom Y i).2) = getDom X i := by
+      apply Prod.ext <;> simp only [] <;> omega
+    have e2 : (max (getDom Y i).1 (getDom X i).1, (getDom Y i).2) = getDom Y i := by
+      apply Prod.ext <;> simp only [] <;> omega
+    rw [if_neg (by omega), if_neg (by omega), e1, e2, set_self rfl, set_self rfl]
+    rcases state2_specX X Y n i hX hY hnX hnY (n + 1) (i + 1) (by omega) (by omega) with ⟨e, _⟩ | ⟨e, hal⟩ | ⟨e, hno⟩
+    · exact ⟨_, e, by simp⟩
+    · rw [e]
+      rcases hk with hk | ⟨hk, _, _⟩
+      · exact enforce_idem hnX hnY (by omega) (by omega) (by simp [kOf]; omega) (by simp [kOf]; omega)
+      · exact (not_allLe_noneLe hX hY hnX hnY hal hk).elim
+    · rw [e]
+      rcases hk with hk | ⟨_, k1, k2⟩
+      · exact (not_canLe_noneLe hX hY hk hno).elim
+      · exact enforce_idem hnX hnY (by omega) (by omega) (by simp [kOf]; omega) (by simp [kOf]; omega)
+
+theorem noneLe_mono {x y X Y : Box} {i : Nat} (h : NoneLe x y i) (l1 : Box.le X x) (l2 : Box.le Y y) :
+    NoneLe X Y i := fun xs ys h1 h2 => h xs ys (inBox_of_le h1 l1) (inBox_of_le h2 l2)
+
+theorem state1_idem (n : Nat) : ∀ (fuel i : Nat) (x y : Box) (r : Status × Box × Box),
+    x.length = n → y.length = n → x.Nonempty → y.Nonempty → i ≤ n → n + 1 ≤ fuel + i →
+    lexState1 n fuel i x y = r → r.1 ≠ .inc →
+    ∃ st', lexState1 n fuel i r.2.1 r.2.2 = (st', r.2.1, r.2.2) ∧ st' ≠ .inc
+  | 0, i, x, y, r, hx, hy, hnx, hny, hi, hf, hr, hst => by omega
+  | fuel + 1, i, x, y, r, hx, hy, hnx, hny, hi, hf, hr, hst => by
+    have hr0 := hr
+    simp only [lexState1] at hr
+    split at hr
+    · rename_i h
+      split at hr
+      · subst hr; simp at hst
+      · rename_i c1
+        split at hr
+        · subst hr; simp at hst
+        · rename_i c2
+          obtain ⟨lx, ly, nx, ny, keep⟩ := tighten_spec hx hy h.1 hnx hny c1 c2
+          obtain ⟨ih1, _, _⟩ := state1_spec n fuel (i + 1) _ _ r (by simpa using hx) (by simpa using hy)
+            nx ny (by omega) hr
+          obtain ⟨l1, l2, n1, n2, _⟩ := ih1.ok hst
+          obtain ⟨st', ih, hst'⟩ := state1_idem n fuel (i + 1) _ _ r (by simpa using hx) (by simpa using hy) nx ny
+            (by omega) (by omega) hr hst
+          obtain ⟨t1, t2⟩ := tighten_get hx hy h.1
+          have hXl : r.2.1.length = n := by rw [Box.le_length l1]; simpa using hx
+          have hYl : r.2.2.length = n := by rw [Box.le_length l2]; simpa using hy
+          have a := Box.le_get i l1 (by simp; omega)
+          have b := Box.le_get i l2 (by simp; omega)
+          rw [t1] at a; rw [t2] at b
+          simp only [] at a b
+          have hXi := Box.nonempty_get n1 i (by omega)
+          have hYi := Box.nonempty_get n2 i (by omega)
+          have hxi := Box.nonempty_get hnx i (by omega)
+          have hyi := Box.nonempty_get hny i (by omega)
+          have e1 : ((getDom r.2.1 i).1, min (getDom r.2.1 i).2 (getDom r.2.2 i).2) = getDom r.2.1 i := by
+            apply Prod.ext <;> simp only [] <;> omega
+          have e2 : (max (getDom r.2.2 i).1 (getDom r.2.1 i).1, (getDom r.2.2 i).2) = getDom r.2.2 i := by
+            apply Prod.ext <;> simp only [] <;> omega
+          refine ⟨st', ?_, hst'⟩
+          simp only [lexState1]
+          rw [if_pos ⟨h.1, by omega⟩, if_neg (by omega), if_neg (by omega), e1, e2, set_self rfl, set_self rfl]
+          exact ih
+    · rename_i h0
+      split at hr
+      · rename_i h; subst hr
+        exact ⟨.ent, hr0, by simp⟩
+      · rename_i h1
+        have hin : i < n := by omega
+        split at hr
+        · subst hr; simp at hst
+        · rename_i c1
+          split at hr
+          · subst hr; simp at hst
+          · rename_i c2
+            obtain ⟨lx, ly, nx, ny, keep⟩ := tighten_spec hx hy hin hnx hny c1 c2
+            obtain ⟨t1, t2⟩ := tighten_get hx hy hin
+            have hxi := Box.nonempty_get hnx i (by omega)
+            have hyi := Box.nonempty_get hny i (by omega)
+            have hx' : (x.set i ((getDom x i).1, min (getDom x i).2 (getDom y i).2)).length = n := by simpa using hx
+            have hy' : (y.set i (max (getDom y i).1 (getDom x i).1, (getDom y i).2)).length = n := by simpa using hy
+            rcases state2_specX _ _ n i hx' hy' nx ny (n + 1) (i + 1) (by omega) (by omega) with ⟨e, hcl⟩ | ⟨e, hal⟩ | ⟨e, hno⟩
+            · rw [hr] at e; subst e
+              refine rerun_handover fuel hx' hy' nx ny hin ?_ ?_ ?_ (Or.inl hcl)
+              · rw [t1, t2]; simp only []; omega
+              · rw [t1, t2]; simp only []; omega
+              · rw [t1, t2]; simp only []; omega
+            · rw [hr] at e; subst e
+              obtain ⟨l1, l2, n1, n2, _⟩ := (lexEnforce_sound _ _ i false (by omega) (by omega) nx ny).ok hst
+              obtain ⟨g1, g2⟩ := lexEnforce_get _ _ i false (by omega) (by omega) hst
+              have hX := Box.le_length l1; rw [hx'] at hX
+              have hY := Box.le_length l2; rw [hy'] at hY
+              refine rerun_handover fuel hX hY n1 n2 hin ?_ ?_ ?_ (Or.inl ?_)
+              · rw [g1, g2, t1, t2]; simp only []; omega
+              · rw [g1, g2, t1, t2]; simp [kOf]; omega
+              · rw [g1, g2, t1, t2]; simp [kOf]; omega
+              · exact ⟨_, _, inB_lo n1, inB_lo n2,
+                  lexF_of_allLe hx' hy' hal ((inB_lo n1).mono l1) ((inB_lo n2).mono l2)⟩
+            · rw [hr] at e; subst e
+              obtain ⟨l1, l2, n1, n2, _⟩ := (lexEnforce_sound _ _ i true (by omega) (by omega) nx ny).ok hst
+              obtain ⟨g1, g2⟩ := lexEnforce_get _ _ i true (by omega) (by omega) hst
+              have hX := Box.le_length l1; rw [hx'] at hX
+              have hY := Box.le_length l2; rw [hy'] at hY
+              refine rerun_handover fuel hX hY n1 n2 hin ?_ ?_ ?_ (Or.inr ⟨noneLe_mono hno l1 l2, ?_, ?_⟩)
+              · rw [g1, g2, t1, t2]; simp only []; omega
+              · rw [g1, g2, t1, t2]; simp [kOf]; omega
+              · rw [g1, g2, t1, t2]; simp [kOf]; omega
+              · rw [g1, g2, t1, t2]; simp [kOf]; omega
+              · rw [g1, g2, t1, t2]; simp [kOf]; omega
+
+theorem getI_append_left {l1 l2 : List Int} {k : Nat} (h : k < l1.length) : getI (l1 ++ l2) k = getI l1 k := by
+  unfold getI; simp [List.getD, List.getElem?_append_left h]
+
+theorem getI_append_right {l1 l2 : List Int} (j : Nat) : getI (l1 ++ l2) (l1.length + j) = getI l2 j := by
+  unfold getI; simp [List.getD, List.getElem?_append_right]
+
+theorem rel_mk (ps : List Int) (gx gy : Nat → Int) (n : Nat) :
+    rel .lexLeq ps (mk gx n ++ mk gy n) ↔ lexF gx gy n 0 := by
+  have hl : (mk gx n ++ mk gy n).length / 2 = n := by simp [length_mk]; omega
+  simp only [rel, hl, lexF, List.drop_zero]
+  rw [List.take_left' (length_mk gx n), List.drop_left' (length_mk gx n)]
+
+end Lex
+
+open Lex
+
+theorem exact_lexLeq : Exact .lexLeq := by
+  intro ps B st B' hc hne hrun hst
+  rw [runAlg_lexLeq] at hrun
+  injection hrun with hrun
+  obtain ⟨hx, hy, hs, _, _⟩ := lexLeq_spec B hc hne
+  simp only [lexLeq] at hrun
+  injection hrun with h1 h2
+  subst h1
+  obtain ⟨l1, l2, n1, n2, _⟩ := hs.ok hst
+  have hX := Box.le_length l1; rw [hx] at hX
+  have hY := Box.le_length l2; rw [hy] at hY
+  have hsupp := state1_supp (B.length / 2) (B.length / 2 + 1) 0 _ _ _ hx hy
+    (nonempty_take _ hne) (nonempty_drop _ hne) (by omega) (by omega) rfl hst
+  obtain ⟨st', hidem, hst'⟩ := state1_idem (B.length / 2) (B.length / 2 + 1) 0 _ _ _ hx hy
+    (nonempty_take _ hne) (nonempty_drop _ hne) (by omega) (by omega) rfl hst
+  subst h2
+  generalize lexState1 (B.length / 2) (B.length / 2 + 1) 0 (B.take (B.length / 2)) (B.drop (B.length / 2)) = r at *
+  generalize B.length / 2 = n at *
+  obtain ⟨st, X, Y⟩ := r
+  simp only [] at *
+  refine ⟨fun k hk => ?_, ?_⟩
+  · -- every bound is attained by a solution
+    have build : ∀ gx gy : Nat → Int, InB gx X → InB gy Y → lexF gx gy n 0 →
+        inBox (mk gx n ++ mk gy n) (X ++ Y) ∧ rel .lexLeq ps (mk gx n ++ mk gy n) :=
+      fun gx gy g1 g2 gl => ⟨inBox_append (inBox_mk hX g1) (inBox_mk hY g2), (rel_mk ps gx gy n).mpr gl⟩
+    by_cases hkn : k < n
+    · rw [getDom_append_left (by omega)]
+      constructor
+      · obtain ⟨gx, gy, g1, g2, gl, e⟩ := hsupp.1 k hkn _ (Or.inl rfl)
+        refine ⟨_, (build gx gy g1 g2 gl).1, (build gx gy g1 g2 gl).2, ?_⟩
+        rw [getI_append_left (by rw [length_mk]; exact hkn), getI_mk gx hkn]; exact e
+      · obtain ⟨gx, gy, g1, g2, gl, e⟩ := hsupp.1 k hkn _ (Or.inr rfl)
+        refine ⟨_, (build gx gy g1 g2 gl).1, (build gx gy g1 g2 gl).2, ?_⟩
+        rw [getI_append_left (by rw [length_mk]; exact hkn), getI_mk gx hkn]; exact e
+    · have hk' : k - n < n := by simp at hk; omega
+      have ek : k = X.length + (k - n) := by omega
+      have ek' : k = (mk (fun _ => (0 : Int)) n).length + (k - n) := by rw [length_mk]; omega
+      rw [ek, getDom_append_right]
+      constructor
+      · obtain ⟨gx, gy, g1, g2, gl, e⟩ := hsupp.2 (k - n) hk' _ (Or.inl rfl)
+        refine ⟨_, (build gx gy g1 g2 gl).1, (build gx gy g1 g2 gl).2, ?_⟩
+        have : X.length + (k - n) = (mk gx n).length + (k - n) := by rw [length_mk, hX]
+        rw [this, getI_append_right, getI_mk gy hk']; exact e
+      · obtain ⟨gx, gy, g1, g2, gl, e⟩ := hsupp.2 (k - n) hk' _ (Or.inr rfl)
+        refine ⟨_, (build gx gy g1 g2 gl).1, (build gx gy g1 g2 gl).2, ?_⟩
+        have : X.length + (k - n) = (mk gx n).length + (k - n) := by rw [length_mk, hX]
+        rw [this, getI_append_right, getI_mk gy hk']; exact e
+  · -- a second call changes nothing
+    refine ⟨st', ?_, hst'⟩
+    rw [runAlg_lexLeq]
+    have hl : (X ++ Y).length / 2 = n := by simp [hX, hY]; omega
+    simp only [lexLeq, hl]
+    rw [List.take_left' hX, List.drop_left' hX, hidem]
 
 end Nucs
